@@ -725,7 +725,49 @@ func drawNumSet(t *rapid.T) spec.V {
 	return v
 }
 
+// emptyDynSetCase: a set whose members hold an EMPTY collection of placeholder
+// element type (what "[]" or "{}" converts to, or decodes to under a
+// placeholder constraint). Such members are wholly known values like any other.
+func emptyDynSetCase(t *rapid.T) ElemCase {
+	hole := spec.V{T: spec.List(spec.Dynamic), St: spec.Known}
+	if rapid.Bool().Draw(t, "maphole") {
+		hole = spec.V{T: spec.Map(spec.Dynamic), St: spec.Known}
+	}
+	mk := func(i int) spec.V {
+		switch rapid.IntRange(0, 2).Draw(t, "shape") {
+		case 0:
+			return spec.V{T: spec.T{K: spec.KTuple}, St: spec.Known, Elems: []spec.V{spec.KnownStr(simpleWords[i%len(simpleWords)]), hole.Clone()}}.Retype()
+		case 1:
+			return spec.V{T: spec.T{K: spec.KObject}, St: spec.Known, Keys: []string{"a", "b"}, Elems: []spec.V{hole.Clone(), spec.KnownNum(spec.NInt(int64(i)))}}.Retype()
+		default:
+			return hole.Clone()
+		}
+	}
+	n := rapid.IntRange(1, 4).Draw(t, "n")
+	first := mk(0)
+	set := spec.V{T: spec.Set(first.T), St: spec.Known, Elems: []spec.V{first}}
+	for i := 1; i < n; i++ {
+		m := mk(rapid.IntRange(0, 3).Draw(t, "mi"))
+		if m.T.Equal(first.T) {
+			set.Elems = append(set.Elems, m)
+		}
+	}
+	if rapid.IntRange(0, 3).Draw(t, "dup") == 0 {
+		set.Elems = append(set.Elems, set.Elems[0].Clone())
+	}
+	m := set.Elems[rapid.IntRange(0, len(set.Elems)-1).Draw(t, "which")]
+	if rapid.IntRange(0, 2).Draw(t, "absent") == 0 && m.T.K != spec.KList && m.T.K != spec.KMap {
+		return ElemCase{set, perturb(t, m), "emptydyn-member-perturbed"}
+	}
+	return ElemCase{set, m.Clone(), "emptydyn-member"}
+}
+
+var simpleWords = []string{"a", "b", "c", "d"}
+
 func genElemCase(t *rapid.T) ElemCase {
+	if rapid.IntRange(0, 15).Draw(t, "emptydyn") == 8 {
+		return emptyDynSetCase(t)
+	}
 	var et spec.T
 	numset := false
 	switch rapid.IntRange(0, 3).Draw(t, "etk") {
